@@ -107,6 +107,11 @@ def eq_edges(f, pred):
             d = d[2]
             neg = not neg
         if not (isinstance(d, tuple) and d[0] == 'bin' and d[1] in ('Eq', 'Ne')):
+            # a direct `match x { c => .. }`: the edge with value c establishes x == c
+            if not neg and isinstance(d, tuple) and d[0] not in ('discr',):
+                for (s, v) in edges:
+                    if v is not None and _try(pred, d, ('const', v, None, '?')):
+                        out.append((bi, s))
             continue
         if not (pred(d[2], d[3]) or pred(d[3], d[2])):
             continue
@@ -115,6 +120,13 @@ def eq_edges(f, pred):
             if (truthy(v, vals) if want_true else v == 0):
                 out.append((bi, s))
     return out
+
+
+def _try(pred, a, b):
+    try:
+        return bool(pred(a, b))
+    except Exception:
+        return False
 
 
 def ne_edges(f, pred):
@@ -132,6 +144,13 @@ def ne_edges(f, pred):
             d = d[2]
             neg = not neg
         if not (isinstance(d, tuple) and d[0] == 'bin' and d[1] in ('Eq', 'Ne')):
+            # a direct `match x { c => .., _ => .. }`: the otherwise edge establishes x != c for every listed c
+            if not neg and isinstance(d, tuple) and d[0] not in ('discr',):
+                for (s, v) in edges:
+                    if v is None and any(_try(pred, d, ('const', c, None, '?')) for c in vals):
+                        out.append((bi, s))
+                    elif v is not None and any(c != v and _try(pred, d, ('const', c, None, '?')) for c in vals + [x for x in (0, 1) if x != v and False]):
+                        pass
             continue
         if not (pred(d[2], d[3]) or pred(d[3], d[2])):
             continue
@@ -216,14 +235,20 @@ NONDET = r'^(rand::|rand_core::|std::env::|std::fs::|std::thread::|std::process:
 # ---------------------------------------------------------------------------------------
 # P4 with value-numbered predicates: path-sensitive simulation that remembers the outcome of
 # tests on stable expressions, so correlated tests prune infeasible paths.
-def stable_expr(e):
+def stable_expr(e, local_fns=None):
+    """No loop-carried / multiply-defined parts; calls are value-numbered getters, or (if local_fns is given) the
+    outermost call may be a crate-local helper evaluated at one site."""
+    first = True
     for x in walk(e):
         if not isinstance(x, tuple) or not x:
             continue
         if x[0] in ('phi', 'modby', 'cyc', 'uninit', 'partial', '?', '?rv', '?promoted'):
             return False
         if x[0] == 'call' and x[3] is not None:
-            return False
+            if not (first and local_fns is not None and x[1] in local_fns):
+                return False
+        if x[0] not in ('ref', 'deref', 'un'):
+            first = False
     return True
 
 
@@ -374,7 +399,7 @@ def fact_sim(f, track, init_flags=frozenset(), on_call=None, on_edge_flags=None)
         efs = edge_fact(d, v, vals)
         newfacts = set(facts)
         for ef in efs:
-            if not stable_expr(ef[0]) or not track(ef[0]):
+            if not stable_expr(ef[0], f.facts.fns) or not track(ef[0]):
                 continue
             if not consistent(newfacts, ef):
                 return None
@@ -432,3 +457,90 @@ def tcp_arms(F):
                 c = 'other:flags=%s' % fl
         label[h] = c
     return f, table, heads, label
+
+
+def var_feeding(f, bi, argi):
+    """The (named or temporary) local whose value is passed as argument argi of the call ending block bi,
+    following plain copies back to the first local that has more than one definition or a user name."""
+    op = f.blocks[bi]['term']['args'][argi]
+    if op['k'] not in ('copy', 'move') or op['place']['p']:
+        return None
+    l = op['place']['l']
+    for _ in range(8):
+        defs = []
+        for b2, blk in enumerate(f.blocks):
+            if blk['cleanup']:
+                continue
+            for st in blk['stmts']:
+                if not st['lhs']['p'] and st['lhs']['l'] == l:
+                    defs.append(st['rv'])
+            t2 = blk['term']
+            if t2['k'] == 'call' and not t2['dest']['p'] and t2['dest']['l'] == l:
+                defs.append({'k': 'call'})
+        if len(defs) == 1 and defs[0]['k'] == 'use' and defs[0]['a']['k'] in ('copy', 'move') and not defs[0]['a']['place']['p']:
+            l = defs[0]['a']['place']['l']
+            continue
+        return l
+    return l
+
+
+def defs_of_local(f, l):
+    """[(block, idx, value expr)] of whole assignments to local l (statements only)."""
+    out = []
+    for bi, blk in enumerate(f.blocks):
+        if blk['cleanup']:
+            continue
+        for i, st in enumerate(blk['stmts']):
+            if not st['lhs']['p'] and st['lhs']['l'] == l:
+                out.append((bi, i, f.rvalue(st['rv'], (bi, i))))
+    return out
+
+
+def subst_params(e, args):
+    """Replace ('param', i) by args[i-1] inside an expression of a callee."""
+    def fn(x):
+        if x[0] == 'param' and 1 <= x[1] <= len(args):
+            return args[x[1] - 1]
+        return None
+    return rewrite(e, fn)
+
+
+def helper_alternatives(F, facts, depth=0):
+    """Facts about the boolean result of a *local helper function* are expanded into what the helper established on the
+    paths that return that result (one alternative per such path).  Returns a list of fact sets (a disjunction)."""
+    facts = frozenset(facts)
+    for fact in facts:
+        k, rel, c = fact
+        k0 = peel(k, unwraps=False)
+        if not (isinstance(k0, tuple) and k0[0] == 'call' and k0[1] in F.fns and depth < 2):
+            continue
+        g = F.fn(k0[1])
+        if g.n > 60 or 'bool' != g.locals[0]['ty']:
+            continue
+        truth = (rel == '==' and c != 0) or (rel == '!=' and c == 0)
+        try:
+            _, exits = fact_sim(g, lambda key: True)
+        except AnalysisError:
+            continue
+        args = [peel(a, unwraps=False) if not (isinstance(a, tuple) and a[0] == 'ref') else a for a in k0[2]]
+        rest = set(facts) - {fact}
+        out = []
+        for (rb, (flags, gf)) in exits:
+            const = [x for x in gf if x[0] == ('local', 0) and x[1] == '==']
+            gfacts = {x for x in gf if not (isinstance(x[0], tuple) and x[0][0] == 'local')}
+            if const:
+                if bool(const[0][2]) != truth:
+                    continue
+                new = set(gfacts)
+            else:
+                rv = g._through(g.ret_value(rb), (rb, len(g.blocks[rb]['stmts'])), 0)
+                nonconst = [a for a in alts(rv) if const_val(a) is None]
+                if len(nonconst) != 1:
+                    continue
+                new = set(gfacts) | {(nonconst[0], '==', 1 if truth else 0)}
+            new = {(subst_params(kk, args), rr, cc) for (kk, rr, cc) in new}
+            for alt in helper_alternatives(F, frozenset(rest | new), depth + 1):
+                out.append(alt)
+        if out:
+            return out
+    return [facts]
